@@ -10,7 +10,7 @@ tsan_leg() {
     local name=$1 tmo=$2
     shift 2
     if tsan_build; then
-        run_leg "$name" "$tmo" env TSAN_OPTIONS="halt_on_error=0 second_deadlock_stack=1 exitcode=0" LV_THREADS=4 \
+        run_leg "$name" "$tmo" env TSAN_OPTIONS="halt_on_error=0 second_deadlock_stack=1 exitcode=0 suppressions=$VERIF/check.d/tsan.supp" LV_THREADS=4 \
             "$TARGET/tsan/x86_64-unknown-linux-gnu/release/lv" "$@" --leg "$name"
     else
         echo "tsan build failed (see $TARGET/build-tsan.log)" >"$LEGS/$ID.$name.log"
